@@ -339,6 +339,25 @@ theorem bAtom_tAtom (e : Expr) (g : Nat) (hw : wAtom recW e = true) (hg : 2 * si
         · intro x hx; obtain ⟨e, _, rfl⟩ := List.mem_map.1 hx; rfl
       bsimp [bAtom, tAtom, tAtomInner, symName, hf, hm, hany]
       simp [Except.map, Names.nd, getText, String.join, Names.lf]
+  | quant ty v c w =>
+    simp only [wAtom, Bool.and_eq_true, Bool.or_eq_true, beq_iff_eq] at hw
+    obtain ⟨⟨hty, hc⟩, hwh⟩ := hw
+    have hsz : 2 * (9 + size (exprNode N (recT c)) + sizeL (optList w (whereNode N recT))) + 2 ≤ g := by
+      simp [tAtom, tAtomInner, varNode, symName] at hg ⊢; omega
+    obtain ⟨g', rfl⟩ : ∃ g', g = g' + 5 := ⟨g - 5, by omega⟩
+    have hce := bExpr_exprNode hN recT recW Hrec c (g' + 4) hc (by omega)
+    simp only [exprNode] at hce
+    have hv : getText (g' + 4 + 1) (N.nd "oC_Variable" [symName N v]) = v := by
+      simp [symName, Names.nd, getText, Names.lf, String.join]
+    cases w with
+    | none =>
+      rcases hty with ((rfl | rfl) | rfl) | rfl <;>
+        (bsimp [bAtom, tAtom, tAtomInner, quantTok, optList, varNode, exprNode, hce]; simp [hv])
+    | some x =>
+      have hxe := bExpr_exprNode hN recT recW Hrec x (g' + 4) hwh (by simp [optList, whereNode] at hsz ⊢; omega)
+      simp only [exprNode] at hxe
+      rcases hty with ((rfl | rfl) | rfl) | rfl <;>
+        (bsimp [bAtom, tAtom, tAtomInner, quantTok, optList, whereNode, varNode, exprNode, hce, hxe, Except.map]; simp [hv])
   | _ => simp [wAtom] at hw
 
 end Atoms
